@@ -229,6 +229,7 @@ class C09(Check):
                      leaf_bits_cap=4.0 if use_noise_model else 8.0, max_ops=6 if use_noise_model else 10)
         circuit = g.circuit()
         noise = None
+        noise_desc = None      # a description without memory addresses, for the event log
         noise_kind = "none"
         ref_circuit = None
         sim_circuit = circuit
@@ -263,6 +264,7 @@ class C09(Check):
                 # measurements split per qubit and recombined, PHYSICAL_GATE_TAG plumbing)
                 noise = _device_noise_model(cirq, tape, sorted(circuit.all_qubits()) or [g.qudits[0]])
                 noise_kind = "device"
+                noise_desc = "NoiseModelFromNoiseProperties(" + repr(noise._noise_properties) + ")"
             elif nk == 3:
                 ch = [cirq.bit_flip(pr), cirq.phase_damp(pr)][tape.draw(2, "noise-ch")]
                 noise = cirq.ConstantQubitNoiseModel(ch, prepend=True)
@@ -303,7 +305,7 @@ class C09(Check):
                 it = iter(theirs)
                 if not all(any(op == t for t in it) for op in mine):
                     raise Violation(f"{P}-NOISE-MODEL-ALTERED-CIRCUIT",
-                                    f"the circuit produced by {noise!r} does not apply the circuit's own operations on "
+                                    f"the circuit produced by {noise_desc or repr(noise)} does not apply the circuit's own operations on "
                                     f"{q} in order: circuit {mine!r}, noisy circuit {theirs!r}")
             # how much branching would the trajectory simulator see?
             for op in ref_circuit.all_operations():
@@ -505,7 +507,8 @@ class C09(Check):
         if stats.get("fallback"):
             ctx.probe("boundary:fallback-branch", stats["fallback"])
             ctx.fault("boundary-u")
-        ctx.decide("case", repr(sim_circuit), noise_kind, repr(noise) if noise is not None else "", with_noise_circuit,
+        ctx.decide("case", repr(sim_circuit), noise_kind,
+                   (noise_desc or repr(noise)) if noise is not None else "", with_noise_circuit,
                    cfg.describe(), entry, n_leaves)
         nonunitary = g.has_nonunitary_channel or use_noise_model
         ctx.nontrivial = bool(nonunitary and (kind == "dm" or n_leaves >= 2))
@@ -515,7 +518,7 @@ class C09(Check):
         diagram = str(sim_circuit).splitlines()
         ctx.sample = {"circuit": diagram if len(diagram) <= 24 and max(map(len, diagram), default=0) < 200
                       else [repr(op)[:120] for op in sim_circuit.all_operations()][:20],
-                      "noise": repr(noise)[:200] if noise is not None else None, "via_with_noise": with_noise_circuit,
+                      "noise": (noise_desc or repr(noise))[:200] if noise is not None else None, "via_with_noise": with_noise_circuit,
                       "simulator": cfg.describe(), "entry": entry, "leaves_explored": n_leaves,
                       "features": sorted(g.features)}
 
